@@ -19,6 +19,7 @@ func checkC11(e *Engine, r *Report) {
 		"R6 state classification is total: syncWithNRI names every ContainerState constant of the cache package in a case or the constant is in the reviewed ignore table; created/running containers go on the allocate list (and the release list, forcing re-allocation), exited ones on the release list",
 		"data-flow refresh semantics: RefreshPods/RefreshContainers insert unknown ids, purge ids the runtime no longer lists (marking purged containers Stale and returning them), and for ids present on both sides copy the runtime-reported state into the cached entry",
 		"R1 Synchronize feeds policy.Sync(allocated, released + unmapped) and returns the drained updates (shared with C05/C09)",
+		"round 4: DeleteContainer/DeletePod remove the entry of a known id from their table",
 	}
 	r.NotDecided = []string{"convergence of the resulting allocations to a state satisfying C01-C04 (value parts)", "containers the runtime reports as paused are neither created nor running and are ignored"}
 	r.Assumptions = []string{"the runtime's Synchronize lists every pod and container it knows"}
